@@ -456,6 +456,12 @@ class ExprGen(Gen):
             alias = "#" + r.choice(["n", "p", "q_1"])
             ctx["names"][alias] = base
             base = alias
+        elif k < 0.10 and "item" in ctx and not ctx.get("update"):
+            # the documented use of a name placeholder: an attribute whose own name contains a dot (the item has it)
+            dotted = r.choice(["a.b", "meta.version", "c.d.e"])
+            ctx["item"].setdefault(dotted, self.typed_value(r.choice(["S", "N", "BOOL", "SS"])))
+            ctx["names"]["#d"] = dotted
+            return "#d"
         elif k < 0.11:
             base = r.choice(RESERVED_SAMPLE)
         v = item.get(base)
@@ -579,7 +585,7 @@ class ExprGen(Gen):
     def alias_probe(self):
         """an expression that reads an attribute in one action and changes it in place in a later one"""
         r = self.r
-        ctx = dict(names={}, values={}, item=self.expr_item())
+        ctx = dict(names={}, values={}, item=self.expr_item(), update=True)
         it = ctx["item"]
         src = r.choice(ATTRS)
         kind = r.choice(["N", "SS", "L", "NS"])
@@ -626,7 +632,7 @@ class ExprGen(Gen):
             return self.alias_probe()
         if r.random() < 0.06:
             return self.remove_probe()
-        ctx = dict(names={}, values={}, item=self.expr_item())
+        ctx = dict(names={}, values={}, item=self.expr_item(), update=True)
         targets = r.sample(ATTRS + ["f", "g"], r.randrange(1, 5))
         clauses = {"SET": [], "REMOVE": [], "ADD": [], "DELETE": []}
         for tg in targets:
